@@ -115,7 +115,7 @@ def classify(rec, exp):
                 return "seq:selection-split-statistics"
         if rec.get("frac"):
             return "seq:non-integer-statistic"
-        return "seq:theil-sen-median-or-p-range"
+        return "seq:theil-sen-median-p-range-or-permutation-component"
     if op == "bh":
         return "bh:panic" if rec.get("panic") else "bh:keep-mask"
     if op == "ts":
